@@ -83,10 +83,24 @@ def exact_front(vectors: list) -> list:
     return sorted(uniq[i] for i in idx)
 
 
+def _axis(lo, hi, n):
+    """up to n values of [lo, hi], always with both ends"""
+    if hi - lo + 1 <= n:
+        return list(range(lo, hi + 1))
+    step = (hi - lo) / (n - 1)
+    return sorted({lo + round(i * step) for i in range(n)})
+
+
 def check_goals(cap, limit_points: int) -> list:
-    """Every single-symbol goal `make_evalable_objectives_from_formula` returned: is the formula monotone in that symbol as claimed?"""
+    """The hypothesis of `tileprune_front_quantities`, per objective formula and per stage of the enumeration:
+    `make_evalable_objectives_from_formula(f, enumerated)` returned tracked quantities k_i with goals; whenever a partial choice c1 is
+    at least as good as c2 on every k_i (≤ for min, ≥ for max, = for diff, divides for *_per_prime_factor), f(c1, u) ≤ f(c2, u)
+    must hold for EVERY value u of the symbols not yet enumerated.  Checked on the whole box when it is small, else on a grid
+    (every axis reduced to ≤ 4 values incl. both ends)."""
+    import itertools
+
     import sympy
-    from harness import cmp9 as C, exprlib9 as X
+    from harness import exprlib9 as X
     from harness import tiles8 as T
 
     symbols = list(cap.kw["symbols"])
@@ -94,55 +108,73 @@ def check_goals(cap, limit_points: int) -> list:
     idx = X.sym_index(syms)
     res, seen = [], set()
     for f, enumerated, goals, bounds, outer_goal in cap.goals:
-        bmap = {s: (lo, hi) for s, lo, hi in bounds}
-        if any(s not in bmap for s in syms):
+        if outer_goal != "min" or not goals:
             continue
-        box = [[int(bmap[s][0]), int(bmap[s][1])] for s in syms]
-        for k, goal in goals.items():
-            if not isinstance(k, sympy.Symbol) or goal not in ("min", "max") or outer_goal != "min":
+        bmap = {s: (int(lo), int(hi)) for s, lo, hi in bounds}
+        try:
+            g = T.to_sympy(f, syms)
+            fsyms = sorted(g.free_symbols, key=str)
+            if any(s not in bmap for s in fsyms):
                 continue
-            key = (str(f), str(k), goal)
+            en = [s for s in fsyms if s in set(enumerated)]
+            un = [s for s in fsyms if s not in set(enumerated)]
+            if not en or not un:
+                continue          # fully enumerated (the formula itself is the quantity) or not started
+            key = (str(g), tuple(map(str, en)))
             if key in seen:
                 continue
             seen.add(key)
-            try:
-                g = T.to_sympy(f, syms)
-                fn = X.compile_eval(g, idx)
-            except X.Unsupported:
-                continue
-            exhaustive = X.n_points(box) <= limit_points
-            if exhaustive:
-                mo = X.mono(fn, box, idx[k])
-            else:
-                # too many points: the symbol in question over its whole range, every other symbol at lo / middle / hi
-                import itertools
+            fn = X.compile_eval(g, idx)
+            ks = [(X.compile_eval(T.to_sympy(k, syms), idx), goal, str(k)) for k, goal in goals.items()]
+        except (X.Unsupported, KeyError):
+            continue
+        total = 1
+        for s_ in fsyms:
+            total *= bmap[s_][1] - bmap[s_][0] + 1
+        exhaustive = total <= limit_points
+        ax = {s_: (list(range(bmap[s_][0], bmap[s_][1] + 1)) if exhaustive else _axis(*bmap[s_], 4)) for s_ in fsyms}
+        base = [1] * len(syms)
 
-                axes = []
-                for s_, (lo, hi) in zip(syms, box):
-                    axes.append(list(range(lo, hi + 1)) if s_ == k else sorted({lo, (lo + hi) // 2, hi}))
-                mo = {"inc": None, "dec": None}
-                hi_k = box[idx[k]][1]
-                for p_ in itertools.product(*axes):
-                    if p_[idx[k]] < hi_k:
-                        q_ = list(p_)
-                        q_[idx[k]] += 1
-                        a_, b_ = fn(p_), fn(q_)
-                        if mo["inc"] is None and a_ < b_:
-                            mo["inc"] = list(p_)
-                        if mo["dec"] is None and b_ < a_:
-                            mo["dec"] = list(p_)
-            # goal "min" on symbol k: a smaller k never gives a larger formula value, i.e. non-decreasing in k
-            bad = mo["dec"] if goal == "min" else mo["inc"]
-            rec = {"formula": str(f), "symbol": str(k), "goal": goal, "box": box, "symbols": [str(s) for s in syms], "ok": bad is None,
-                   "exhaustive": exhaustive}
-            if bad is not None:
-                rec["point"] = bad
-                verdict = "GEQ" if goal == "min" else "LEQ"
-                small = [[max(lo, p0 - 1), min(hi, p0 + 2)] for (lo, hi), p0 in zip(box, bad)]
-                rec["cause"] = C.classify_diff(g, k, syms, small, verdict)
-                real = C.real_diff(g, k, syms, box, 10.0)
-                rec["diff_geq_leq_zero"] = list(real)
-            res.append(rec)
+        def point(vals_en, vals_un):
+            p_ = list(base)
+            for s_, v in zip(en, vals_en):
+                p_[idx[s_]] = v
+            for s_, v in zip(un, vals_un):
+                p_[idx[s_]] = v
+            return p_
+
+        en_pts = list(itertools.product(*[ax[s_] for s_ in en]))
+        un_pts = list(itertools.product(*[ax[s_] for s_ in un]))
+        if len(en_pts) > 400:
+            en_pts = en_pts[:: max(1, len(en_pts) // 400)]
+        # proxies depend on the enumerated symbols only (that is the claim); evaluate them with the others at 1
+        prox = [[k(point(c, [1] * len(un))) for k, _g, _n in ks] for c in en_pts]
+        vals = [[fn(point(c, u)) for u in un_pts] for c in en_pts]
+
+        def better(a, b, goal):
+            if goal == "min":
+                return a <= b
+            if goal == "max":
+                return a >= b
+            if goal == "min_per_prime_factor":
+                return a != 0 and b % a == 0
+            if goal == "max_per_prime_factor":
+                return b != 0 and a % b == 0
+            return a == b
+
+        bad = None
+        for i, j in itertools.permutations(range(len(en_pts)), 2):
+            if all(better(prox[i][t], prox[j][t], ks[t][1]) for t in range(len(ks))):
+                for ui, (x, y) in enumerate(zip(vals[i], vals[j])):
+                    if x > y:
+                        bad = {"better": dict(zip(map(str, en), en_pts[i])), "worse": dict(zip(map(str, en), en_pts[j])),
+                               "rest": dict(zip(map(str, un), un_pts[ui])), "f_better": str(x), "f_worse": str(y)}
+                        break
+            if bad:
+                break
+        res.append({"formula": str(g), "enumerated": [str(s_) for s_ in en], "tracked": {n: gl for _k, gl, n in ks},
+                    "ok": bad is None, "exhaustive": exhaustive, "compound": any(not isinstance(k, sympy.Symbol) for k in goals),
+                    **({"witness": bad} if bad else {})})
     return res
 
 
@@ -279,14 +311,18 @@ def gen_case(rng, thorough: bool, i: int) -> dict:
     else:
         wl["A"], wl["B"], wl["C"] = dims
     knobs = {}
+    if i % 3 == 1:
+        p["fanout"] = p["fanout"] or rng.choice([2, 4])      # every third spec has a spatial fanout
     if p["fanout"]:
         rvs = ["m", "n0", "n1"] if wl["kind"] == "matmuls" else ["a", "b", "c"]
         if rng.random() < 0.6:
             rv = rng.choice(rvs)
             p["lb_expr"] = rng.choice([f"~{rv}", rv, "All"])
             p["lb_op"], p["lb_val"] = rng.choice([("==", 1), ("<=", 2), ("==", 2), ("product<=", 2), (">=", 1), ("<", 3)])
-        if rng.random() < 0.4:
+        if rng.random() < 0.4 or i % 6 == 1:
             knobs["max_loops_per_spatial_dimension"] = rng.choice([1, 1, 2])
+            if i % 6 == 1:
+                p["lb_op"] = ""
     if rng.random() < 0.3:
         knobs["max_fused_loops"] = rng.choice([0, 1, 2])
     mets = rng.choice([["ENERGY"], ["LATENCY"], ["ENERGY", "LATENCY"], ["ENERGY_DELAY_PRODUCT"], ["ENERGY", "LATENCY", "RESOURCE_USAGE"]])
@@ -372,7 +408,9 @@ def run(ctx: Ctx):
                     "n_real_rows": t["n_real_rows"]}
             bad_goals = [g for g in t.get("goals", []) if not g["ok"]]
             if t["lost"]:
-                cause = ("wrong-goal:" + bad_goals[0]["cause"]) if bad_goals else "other"
+                cause = "other"
+                if bad_goals and t["n_pareto_calls"] >= 2:
+                    cause = "in-flight:tracked-quantities-do-not-order-the-objective"
                 ctx.fail(f"front-lost:{cause}",
                          f"make_tile_shapes lost {len(t['lost'])} Pareto-optimal objective vector(s) of the template, e.g. {t['lost'][0]} "
                          f"reached by {t.get('lost_witness')}",
